@@ -137,6 +137,29 @@ def h_batch_dot(env, N, L1, L2):
         env.goal('operands_unchanged', AND([arr_eq(A.gs, g1), arr_eq(B.gs, g2), arr_eq(A.ps, p1), arr_eq(B.ps, p2)]))
 
 
+def h_matmul_views(env, N):
+    """operands that are rows of one list (views of the same array), and an operand multiplied with itself"""
+    M = Mods(env)
+    gs = env.bits('gs', (2, 2 * N))
+    ps = env.phases('ps', (2,))
+    lst = M.pa.PauliList(gs.copy(), ps.copy())
+    r = env.run(lambda: (lst[0] @ lst[1], lst[1] @ lst[1], lst[-1] @ lst[0]))
+    env.goal('no_exception', b_not(r.raised))
+    if r.value is not None:
+        for name, C, (a, b) in zip(('row0_row1', 'row1_squared', 'last_row0'), r.value, ((0, 1), (1, 1), (1, 0))):
+            ge, pe = ref.ref_mul(gs[a], ps[a], gs[b], ps[b])
+            env.goal(name, b_and(arr_eq(C.g, ge), eq(C.p, pe)))
+    env.goal('list_unchanged', b_and(arr_eq(lst.gs, gs), arr_eq(lst.ps, ps)))
+    poly = M.pa.PauliPolynomial(gs.copy(), ps.copy())
+    r2 = env.run(lambda: poly @ poly)
+    env.goal('polynomial_squared_no_exception', b_not(r2.raised))
+    if r2.value is not None and tuple(np.shape(r2.value.gs)) == (4, 2 * N):
+        for a in range(2):
+            for b in range(2):
+                ge, pe = ref.ref_mul(gs[a], ps[a], gs[b], ps[b])
+                env.goal('polynomial_squared_term[%d,%d]' % (a, b), b_and(arr_eq(r2.value.gs[2 * a + b], ge), eq(r2.value.ps[2 * a + b], pe)))
+
+
 def jobs(tier):
     J = []
     nmax = 3 if tier == 'quick' else 5
@@ -154,6 +177,8 @@ def jobs(tier):
         for L1 in (1, 2):
             for L2 in (1, 2):
                 J.append(dict(harness=('c01', 'h_batch_dot'), params=dict(N=N, L1=L1, L2=L2)))
+    for N in (1, 2, 3):
+        J.append(dict(harness=('c01', 'h_matmul_views'), params=dict(N=N)))
     for N in range(1, (2 if tier == 'quick' else 4) + 1):
         J.append(dict(harness=('c01', 'h_chain'), params=dict(N=N, K=4)))
     return J
